@@ -71,9 +71,21 @@ OPTION_SETS = [
 def refkey(name: str) -> RefKey:
     if name not in _KEYS:
         kind = {'k1': 'ed25519', 'k2': 'ecdsa', 'k3': 'rsa',
-                'kx': 'ed25519'}[name]
+                'kx': 'ed25519', 'ha': 'ed25519', 'hb': 'ed25519',
+                'hx': 'ed25519'}[name]
         _KEYS[name] = RefKey(kind)
     return _KEYS[name]
+
+
+# host-based authentication: client host keys the server knows, and the one
+# (user, client host) pair its application admits
+HOST_KEYS = {'hosta': 'ha', 'hostb': 'hb'}
+HOSTBASED_OK = ('alice', 'hostb')
+
+
+def known_client_hosts() -> bytes:
+    return b''.join(h.encode() + b' ' + refkey(k).openssh_public() + b'\n'
+                    for h, k in sorted(HOST_KEYS.items()))
 
 
 def key_owner(name: str) -> Optional[str]:
@@ -194,6 +206,14 @@ def make_server(log: List[Any], gate: Gate, optstr: str,
             # user's keys
             return True
 
+        def host_based_auth_supported(self):
+            return True
+
+        def validate_host_based_user(self, username, client_host,
+                                     client_username):
+            log.append(('hb-user', username, client_host, client_username))
+            return (username, client_host) == HOSTBASED_OK
+
         def password_auth_supported(self):
             return True
 
@@ -252,7 +272,9 @@ def run_history(case) -> CaseResult:
     h = memwire.Harness()
     gate = Gate(h.loop, case['gated'])
     link = RefLink(ref, {'server_factory': make_server(
-        log, gate, optstr, bool(case.get('lazy')))}, h=h)
+        log, gate, optstr, bool(case.get('lazy'))),
+                         'known_client_hosts': known_client_hosts(),
+                         'trust_client_host': True}, h=h)
 
     labels = set()
 
@@ -334,7 +356,14 @@ def run_history(case) -> CaseResult:
                             user, service, alg, refkey('kx').blob()),
                     }.get(variant)
 
-                    if variant == 'other-signer':
+                    if variant in ('empty-sig', 'no-sig-field', 'sig-header'):
+                        # "signed" requests that carry no signature at all:
+                        # a zero-length string, nothing after the key, or
+                        # only the algorithm name of a signature blob
+                        sig = {'empty-sig': b'', 'no-sig-field': None,
+                               'sig-header': string(alg) + string(b'')}[
+                                   variant]
+                    elif variant == 'other-signer':
                         # right data, signed by a different private key
                         sig = refkey('kx').sign(alg, conn.pubkey_sig_data(
                             user, service, alg, blob))
@@ -352,9 +381,44 @@ def run_history(case) -> CaseResult:
                     else:
                         sig = key.sign(alg, data)
 
-                    conn.auth_publickey(user, key, alg, sig=sig)
+                    if variant == 'no-sig-field':
+                        conn.ref.send(byte(50) + string(user) +
+                                      string(b'ssh-connection') +
+                                      string(b'publickey') + boolean(True) +
+                                      string(alg) + string(blob))
+                    else:
+                        conn.auth_publickey(user, key, alg, sig=sig)
 
                 labels.add('pk:' + variant)
+            elif kind == 'hb':
+                # RFC 4252 section 9: the client HOST vouches for the user;
+                # signed by the host's key over session id and request
+                key = refkey(op['key'])
+                alg = key.algs()[0]
+                blob = key.blob()
+                chost = op['host'].encode() + b'.'
+                body = byte(50) + string(user) + string(b'ssh-connection') + \
+                    string(b'hostbased') + string(alg) + string(blob) + \
+                    string(chost) + string(b'root')
+                sig = key.sign(alg, string(ref.session_id) + body)
+
+                if op['v'] == 'bad-sig':
+                    sig = sig[:-1] + bytes([sig[-1] ^ 1])
+                elif op['v'] == 'empty-sig':
+                    sig = b''
+
+                conn.ref.send(body + string(sig))
+                entry['valid'] = op['v'] == 'ok' and \
+                    HOST_KEYS.get(op['host']) == op['key'] and \
+                    (user, op['host']) == HOSTBASED_OK
+                entry['cred'] = 'hb'
+                labels.add('hostbased')
+                labels.add('hb:' + ('valid' if entry['valid'] else
+                                    'key-of-other-host'
+                                    if op['v'] == 'ok' and
+                                    op['key'] in HOST_KEYS.values() and
+                                    HOST_KEYS.get(op['host']) != op['key']
+                                    else 'refused'))
             elif kind == 'kbd':
                 conn.ref.send(byte(50) + string(user) +
                               string(b'ssh-connection') +
@@ -701,10 +765,17 @@ def strategy(tier: str):
         'key': pick(['k1', 'k1', 'k1', 'k2', 'k3', 'kx']),
         'v': pick(['query', 'ok', 'ok', 'wrong-sid', 'wrong-user',
                    'wrong-service', 'wrong-blob', 'other-signer', 'bad-sig',
-                   'alg-mismatch']),
+                   'alg-mismatch', 'empty-sig', 'empty-sig', 'no-sig-field',
+                   'sig-header']),
         'pipeline': st.booleans()})
     kbd = st.fixed_dictionaries({'k': st.just('kbd'), 'u': user,
                                  'w': pick(['right', 'wrong'])})
+    hostb = st.fixed_dictionaries({
+        'k': st.just('hb'), 'u': pick(['alice', 'alice', 'bob']),
+        'key': pick(['ha', 'ha', 'hb', 'hx']),
+        'host': pick(['hosta', 'hostb', 'hostb', 'hostz']),
+        'v': pick(['ok', 'ok', 'ok', 'bad-sig', 'empty-sig']),
+        'pipeline': st.booleans()})
     simple = st.fixed_dictionaries({
         'k': pick(['none', 'unknown', 'malformed', 'bad-service']),
         'u': user, 'pipeline': st.booleans()})
@@ -714,7 +785,8 @@ def strategy(tier: str):
                                                     8])})
     probe = st.fixed_dictionaries({'k': st.just('probe'),
                                    'w': pick(['open', 'global'])})
-    op = st.one_of(pw, pw, pk, pk, pk, kbd, simple, release, release, probe)
+    op = st.one_of(pw, pw, pk, pk, pk, kbd, simple, release, release, probe,
+                   hostb, hostb)
     final = pick([
         None,
         {'k': 'pw', 'u': 'alice', 'w': 'right'},
@@ -1155,6 +1227,9 @@ FAMILIES = [
                              'pk:wrong-user', 'pk:wrong-service',
                              'pk:wrong-blob', 'pk:bad-sig',
                              'pk:other-signer', 'pk:alg-mismatch',
+                             'hostbased', 'hb:valid', 'hb:key-of-other-host',
+                             'pk:empty-sig', 'pk:no-sig-field',
+                             'pk:sig-header',
                              'failed-key-attempt-before-success']},
            case_timeout=120),
     Family('converse', run_converse, strategy=converse_strategy,
